@@ -26,6 +26,8 @@ structure Cfg where
   thr : Nat
   /-- the router implements ProvideMany -/
   many : Bool
+  /-- the router implements Ready (and answers true: a false answer makes Reprovide sleep for a minute) -/
+  hasReady : Bool := false
   fixed : Bool := true
 
 /-- state of the reprovider that survives a Reprovide call -/
@@ -34,6 +36,12 @@ structure St where
   cbLive : Bool
   /-- `s.throughputReprovideCurrentCount` -/
   cnt : Nat := 0
+  /-- `s.totalReprovides` (Stat().TotalReprovides) -/
+  total : Nat := 0
+  /-- `s.lastReprovideBatchSize` (Stat().LastReprovideBatchSize) -/
+  lastBatch : Nat := 0
+  /-- ghost: number of `Ready()` calls made so far -/
+  readyCalls : Nat := 0
   deriving DecidableEq, Repr
 
 inductive Ev where
@@ -78,6 +86,20 @@ def doProvideMany (many : Bool) (ok : Nat → Bool) (calls : Nat) (keys : List K
 /-- the multihashes of the valid CIDs of the map (`keys`), in map order -/
 def keysOf (al : Allowlist) (cids : List Cid) : List Key := (cids.filter (valid al)).map Cid.mh
 
+/-- what happens to the reprovider's state after doProvideMany: Ready() bookkeeping, and — when the batch
+succeeded (`good`) — the statistics, the throughput counter and possibly the callback.
+Returns the state, the number of callback calls so far, and the callback event if any. -/
+def account (cfg : Cfg) (more : Nat → Bool) (st : St) (cbCalls n : Nat) (good all : Bool) : St × Nat × List Ev :=
+  -- waitUntilProvideSystemReady: one Ready() call (answering true) per batch that has keys
+  let st0 : St := if cfg.hasReady then { st with readyCalls := st.readyCalls + 1 } else st
+  if !good then (st0, cbCalls, [])   -- "reproviding failed": `continue`
+  else
+    let cnt := st0.cnt + n
+    let st1 : St := { st0 with total := st0.total + n, lastBatch := n }
+    if st1.cbLive && cnt ≥ cfg.thr then
+      ({ st1 with cbLive := more cbCalls, cnt := 0 }, cbCalls + 1, [.cb all cnt])
+    else ({ st1 with cnt := cnt }, cbCalls, [])
+
 /-- one iteration of `for !allCidsProcessed { … }`; returns the new state, the events, allCidsProcessed -/
 def iter (cfg : Cfg) (bs : Nat) (ok : Nat → Bool) (more : Nat → Bool) (s : LoopSt) : LoopSt × List Ev × Bool :=
   let rb := readBatch bs s.rest s.cids
@@ -86,13 +108,8 @@ def iter (cfg : Cfg) (bs : Nat) (ok : Nat → Bool) (more : Nat → Bool) (s : L
   if keys.isEmpty then ({ s with rest := rb.1, cids := cids }, [], rb.2.2)
   else
     let p := doProvideMany cfg.many ok s.calls keys
-    if !p.2.2 then ({ s with rest := rb.1, cids := cids, calls := p.2.1 }, p.1, rb.2.2)   -- `continue`
-    else
-      let cnt := s.st.cnt + keys.length
-      if s.st.cbLive && cnt ≥ cfg.thr then
-        ({ rest := rb.1, cids := cids, calls := p.2.1, cbCalls := s.cbCalls + 1,
-           st := { cbLive := more s.cbCalls, cnt := 0 } }, p.1 ++ [.cb rb.2.2 cnt], rb.2.2)
-      else ({ s with rest := rb.1, cids := cids, calls := p.2.1, st := { s.st with cnt := cnt } }, p.1, rb.2.2)
+    let a := account cfg more s.st s.cbCalls keys.length p.2.2 rb.2.2
+    ({ rest := rb.1, cids := cids, st := a.1, calls := p.2.1, cbCalls := a.2.1 }, p.1 ++ a.2.2, rb.2.2)
 
 /-- the loop, with fuel; `none` = out of fuel (C44.loop_fuel_ok: `rest.length + 1` suffices when bs > 0) -/
 def loop (cfg : Cfg) (bs : Nat) (ok : Nat → Bool) (more : Nat → Bool) : Nat → LoopSt → Option (LoopSt × List Ev)
@@ -104,6 +121,22 @@ def loop (cfg : Cfg) (bs : Nat) (ok : Nat → Bool) (more : Nat → Bool) : Nat 
       match loop cfg bs ok more fuel r.1 with
       | some (s'', evs') => some (s'', r.2.1 ++ evs')
       | none => none
+
+/-- how a Reprovide call can end before its loop does anything: the key provider returns an error, or the
+context is already cancelled (the loop reads one batch, sees `ctx.Err()` and returns it) -/
+inductive Early where
+  | kpErr | cancelled
+  deriving DecidableEq, Repr
+
+/-- Reprovide with its early exits: `none` = does not terminate; `some (st, evs, err)` -/
+def reprovideE (cfg : Cfg) (st : St) (early : Option Early) (ks : List Cid) (ok : Nat → Bool) (more : Nat → Bool) :
+    Option (St × List Ev × Bool) :=
+  match early with
+  | some _ => some (st, [], true)
+  | none =>
+    match loop cfg (batchSize cfg st) ok more (ks.length + 1) { rest := ks, cids := [], st := st } with
+    | some (s, evs) => some (s.st, evs, false)
+    | none => none
 
 /-- Reprovide over the key stream `ks` (the key provider succeeded). `none` = the loop does not terminate
 within `ks.length + 1` iterations (for the fixed code: never, see `c44_terminates`). -/
@@ -139,5 +172,14 @@ def prioParts : List Cid → List (Option (List Cid)) → List (List Cid)
     out :: prioParts v r
 
 def prioritized (streams : List (Option (List Cid))) : List Cid := (prioParts [] streams).flatten
+
+/-- NewConcatProvider: the streams one after the other, no deduplication; a failing stream is skipped -/
+def concat : List (Option (List Cid)) → List Cid
+  | [] => []
+  | none :: r => concat r
+  | some ks :: r => ks ++ concat r
+
+/-- NewBufferedProvider: the same keys in the same order (only buffered in memory) -/
+def buffered (ks : List Cid) : List Cid := ks
 
 end C44
